@@ -228,6 +228,8 @@ extend("C12", "the alias chase on cache write-back (Cache.additionalAnswer over 
 
 extend("C10", "chain rebinding: Chain.Reset / ResetWire from an arbitrary left-over state (written or not, held message / wire lease, rcode, internal and direct-pack marks, a writer still wrapped by a middleware, cancelled or mid-chain, inline-only / handoff / replay marks, a meta with cut bound and ledgers, a pending detach cleanup) yields the chain's own writer bound to the new client, unwritten and empty, the new request, fresh marks and meta, the previous cleanup run once - and the first write reaches the new client only.")
 
+extend("C06", "the stream listeners' in-place FORMERR/NOTIMP rejection (tcpJob.rejectInPlace through the real stream staging), for all 2^96 request headers and any left-over transmit-buffer contents: one frame of exactly twelve octets echoing id and opcode with QR set, the verdict's rcode, no AD the client did not send and all counts zero.")
+
 NA_REASON = "no check registered yet: the solver-based harness for this property is still being built in this session (see DESIGN.md §5 for the plan)"
 def main():
     props = [json.loads(l) for l in open(os.path.join(ROOT, "properties.jsonl"))]
